@@ -436,6 +436,10 @@ class TileCreator(object):
                     source.as_buffer(self.tile_mgr.image_opts)
                 source.image_opts = self.tile_mgr.image_opts
                 tile.source = source
+                # drop the metadata of the expired tile that is_cached() loaded,
+                # timestamp and size of the new tile are set when it is stored
+                tile.timestamp = None
+                tile.size = None
                 tile.cacheable = source.cacheable
                 tile = self.tile_mgr.apply_tile_filter(tile)
                 if source.cacheable:
